@@ -172,6 +172,25 @@ def run_harnesses(names, timeout=1800, jobs=8, playback=False):
                 r['what'] = reg[n].get('what', '')
                 r['domain'] = reg[n].get('domain', '')
                 results[n] = r
+        # counterexamples: re-run each failed harness with concrete playback and keep the verifier's values
+        for n, r in results.items():
+            if r['status'] != 'FAILED':
+                continue
+            cmd = ['cargo', 'kani', '-Z', 'function-contracts', '-Z', 'stubbing', '-Z', 'concrete-playback',
+                   '--concrete-playback=print'] + list(reg[n].get('flags', [])) + ['--harness', n]
+            env = dict(os.environ)
+            env['CARGO_NET_OFFLINE'] = 'true'
+            env['CARGO_TARGET_DIR'] = os.path.join(CACHE, 'kani-target')
+            try:
+                p = subprocess.run(cmd, cwd=os.path.join(dst, 'ffuzzy'), env=env, stdout=subprocess.PIPE,
+                                   stderr=subprocess.STDOUT, text=True, timeout=600)
+                m = re.search(r'Concrete playback unit test for.*?```(.*?)```', p.stdout, re.S)
+                if m:
+                    r['counterexample'] = m.group(1).strip()
+                    vals = re.findall(r'//\s*(.*?)\n\s*vec!\[([^\]]*)\]', m.group(1))
+                    r['counterexample_values'] = [{'value': a.strip(), 'bytes': b.strip()} for a, b in vals]
+            except subprocess.TimeoutExpired:
+                pass
         return results, ilog
     finally:
         fcntl.flock(lock, fcntl.LOCK_UN)
